@@ -238,16 +238,19 @@ structure Removed where
   wasClosing : Bool
 deriving DecidableEq, Repr
 
+/-- memory phase for one found circuit. -/
+def delStep (s : State) (k : Key) (id : ObjId) : State :=
+  { s with pending := upd s.pending k none,
+           closed := upd s.closed k false,
+           opened := openedDel s.opened (s.objs id).outgoing }
+
 def deleteMem (s : State) : List Key → State × List Removed
   | [] => (s, [])
   | k :: rest =>
     match s.pending k with
     | none => deleteMem s rest
     | some id =>
-      let s1 := { s with pending := upd s.pending k none,
-                         closed := upd s.closed k false,
-                         opened := openedDel s.opened (s.objs id).outgoing }
-      let r := deleteMem s1 rest
+      let r := deleteMem (delStep s k id) rest
       (r.1, ⟨k, id, s.closed k⟩ :: r.2)
 
 def deleteDisk (s : State) : List Removed → State
